@@ -153,6 +153,60 @@ def retry_consistency(ctx, prog, fit_fns, rule_id="R2"):
         ctx.rules[rule_id].floor = 0
 
 
+def retry_mask_freshness(ctx, prog, fit_fns, rule_id="R6"):
+    """Inside a retry loop that thins X and Y, every array combined into the thinning mask must have the *current* length:
+    it is computed inside the loop (after the previous thinning) or thinned itself.  A mask operand computed once before
+    the loop from the training targets has the old length on the second thinning -> shape error instead of a recovery."""
+    ctx.rule(rule_id, "operands of the thinning mask are computed from the current (already thinned) training arrays", floor=1)
+    n = 0
+    for fn in fit_fns:
+        for c in fit_calls(prog, fn):
+            loop = enclosing(prog, c, (ast.While, ast.For), fn.node)
+            if loop is None or len(c.args) < 2 or not all(isinstance(a, ast.Name) for a in c.args[:2]):
+                continue
+            xn, yn = c.args[0].id, c.args[1].id
+            rebinds = [(v, st) for t, v, st, k in iter_stores(loop) if isinstance(t, ast.Name) and t.id in (xn, yn) and isinstance(v, ast.Subscript) and isinstance(v.value, ast.Name)]
+            if not rebinds:
+                continue
+            n += 1
+            in_loop_defs = {}
+            accumulates = set()
+            for t, v, st, k in iter_stores(loop):
+                if isinstance(t, ast.Name):
+                    in_loop_defs.setdefault(t.id, []).append(v)
+                    if k == "aug" or (v is not None and any(isinstance(x, ast.Name) and x.id == t.id for x in ast.walk(v)) and not (isinstance(v, ast.Subscript) and isinstance(v.value, ast.Name) and v.value.id == t.id)):
+                        accumulates.add(t.id)
+                elif isinstance(t, ast.Subscript) and isinstance(t.value, ast.Name):
+                    in_loop_defs.setdefault(t.value.id, [])
+            outer_defs = {}
+            for t, v, st, k in iter_stores(fn.node):
+                if isinstance(t, ast.Name) and not any(st is x for x in ast.walk(loop)):
+                    outer_defs.setdefault(t.id, []).append(v)
+            # closure of the names that flow into the mask, through definitions inside the loop
+            seen, work, stale = set(), [x.id for v, _ in rebinds for x in ast.walk(v.slice) if isinstance(x, ast.Name)], []
+            while work:
+                nm = work.pop()
+                if nm in seen or nm in (xn, yn):
+                    continue
+                seen.add(nm)
+                if nm in in_loop_defs:
+                    for d in in_loop_defs[nm]:
+                        if d is not None:
+                            work += [x.id for x in ast.walk(d) if isinstance(x, ast.Name)]
+                if nm in outer_defs and (nm not in in_loop_defs or nm in accumulates):
+                    # defined only before the loop: stale if it is an array derived from the training arrays
+                    srcs = {x.id for d in outer_defs[nm] if d is not None for x in ast.walk(d) if isinstance(x, ast.Name)}
+                    arrayish = any(d is not None and not (isinstance(d, ast.Constant) or (isinstance(d, ast.Call) and call_name(d) in ("len", "int", "float", "np.size"))) for d in outer_defs[nm])
+                    if arrayish and srcs & {xn, yn}:
+                        stale.append(nm)
+            if stale:
+                ctx.fail(fn, rebinds[0][1], f"the thinning mask combines {stale}, computed once before the retry loop from the training arrays, with arrays of the current length: after the first thinning the lengths differ and the next removal fails with a shape error instead of recovering", construct=f"stale mask operand {stale[0]} in retry")
+            else:
+                ctx.ok(fn, rebinds[0][1], "mask operands are computed inside the loop from the current arrays")
+    if n == 0:
+        ctx.rules[rule_id].floor = 0
+
+
 def stored_noise_consistency(ctx, prog, fit_fns, rule_id="R5"):
     """gpyreg's fit keeps the receiver's stored noise vector when its s2 argument is None (``if s2 is not None: self.s2 =
     s2``).  When a retry drops rows from X and Y, the receiver's stored vector must be thinned with the same mask - unless
@@ -282,6 +336,7 @@ def check(ctx):
 
     retry_consistency(ctx, prog, fit_fns)
     stored_noise_consistency(ctx, prog, fit_fns)
+    retry_mask_freshness(ctx, prog, fit_fns)
 
     ctx.rule("R3", "posterior update after a refit falls back to the previous hyperparameters on LinAlgError", floor=1)
     reach_fit = set()
